@@ -372,12 +372,17 @@ theorem fileEntries_storeOrdered (s : State) (hr : RawInv s) : Query.fileEntries
   simp only [Query.fileEntries, storeOrdered]
   exact (entries_eq_of_perm Query.rawKey (fun kv => kv.2) (inStoreOrder_perm Query.rawKey s.files).symm hr).symm
 
+theorem pubkeyEntries_storeOrdered (s : State) (h : Inv s) : Query.pubkeyEntries (storeOrdered s) = Query.pubkeyEntries s := by
+  simp only [Query.pubkeyEntries, storeOrdered]
+  exact (entries_eq_of_perm pubkeyRaw (fun kv => (kv.1, kv.2)) (inStoreOrder_perm pubkeyRaw s.pubkeys).symm (pubkeys_rawNodup h)).symm
+
 theorem run_storeOrdered (s : State) (h : Inv s) (hr : RawInv s) (q : Query.Q) :
     Query.run (storeOrdered s) q = Query.run s q := by
   cases q with
   | file a o => simp only [Query.run, fileEntries_storeOrdered s hr]
   | allFiles p => simp only [Query.run, fileEntries_storeOrdered s hr]
   | pubKey a => simp only [Query.run, storeOrdered, get_inStoreOrder pubkeyRaw h.2.2]
+  | allPubKeys p => simp only [Query.run, pubkeyEntries_storeOrdered s h]
 
 /-! the invariant along histories (the `Keyed` part is C10's `C10_storeInv_along_histories`) -/
 
